@@ -13,6 +13,7 @@ C13 tonoll1 n m / toansi1 n m                    single pair (any m)
 C13 pts polar [r…] [c…] [s…]                     store polar points (r, cos θ, sin θ)
 C13 pts cart [x…] [y…]                           store Cartesian points
 C13 mode n m D cutoff     -> ok [q…]             rational factor of zernike(n,m,D,·,cutoff) on the stored points
+C13 basis ansi start num  -> ok n:m,…            modes of make_zernike_basis(num, …, starting_mode=start, ansi=ansi)
 C13 normsq n m            -> ok q                (n+1)·(2 if m≠0)
 C13 radial n m r          -> ok q                zernike_radial (repaired)
 C13 radialold n m r       -> ok q | nan          unrepaired recurrence (n-|m| even, |m| ≤ n)
@@ -104,6 +105,12 @@ def step (st : St) : List String → St × String
         | .cart p => p.map fun (x, y) => modeQXYCut n m D x y cut
       (st, "ok " ++ showRatList out)
     | _, _, _, _ => (st, "bad-op")
+  | ["basis", ansi, start, num] =>
+    match parseBool? ansi, parseNat? start, parseNat? num with
+    | some ansi, some start, some num =>
+      if !ansi && start = 0 then (st, "err value") else
+      (st, "ok " ++ ",".intercalate ((basisModes ansi start num).map showPair))
+    | _, _, _ => (st, "bad-op")
   | ["normsq", n, m] =>
     match parseNat? n, parseInt? m with
     | some n, some m => (st, "ok " ++ showRat (normSq n m))
